@@ -17,8 +17,9 @@ TReset == /\ Is("reset")
           /\ next' = 1 /\ cur' = 0 /\ i' = 0 /\ conn' = "up" /\ sinkUp' = TRUE /\ faults' = 0
           /\ delivered' = <<>> /\ errCount' = 0 /\ stable' = 0
 THand == Is("hand") /\ next = Ev.m /\ Take
-TDie == Is("die") /\ cur = 0 /\ SinkDie
-TRestart == Is("restart") /\ cur = 0 /\ SinkRestart
+(* the driver applies a fault after the hand-over of the previous message; the producer may still be working on it *)
+TDie == Is("die") /\ SinkDie
+TRestart == Is("restart") /\ SinkRestart
 TEnd == /\ Is("end") /\ cur = 0 /\ delivered = Ev.delivered /\ UNCHANGED vars
 Silent == (WriteOk \/ WriteLost \/ WriteReset \/ WriteEPIPE) /\ UNCHANGED l
 TraceNext == TReset \/ THand \/ TDie \/ TRestart \/ TEnd \/ Silent
